@@ -45,6 +45,7 @@ pub struct OpSt {
     /// who let go first while the op was still held by the OS
     pub released_while_held: bool,
     pub freed_by_ring_close: bool,
+    pub new_tid: u64,
 }
 
 #[derive(Debug, Default)]
@@ -120,7 +121,7 @@ pub fn check_log(events: &[Event], type_names: &[&'static str], expect_all_freed
                 }
                 live.insert(e.b, e.a);
                 order.push(e.a);
-                ops.insert(e.a, OpSt { op_id: e.a, addr: e.b, ty, first_seq: e.seq, ..Default::default() });
+                ops.insert(e.a, OpSt { op_id: e.a, addr: e.b, ty, first_seq: e.seq, new_tid: e.tid, ..Default::default() });
             }
             Kind::Submit => {
                 let Some(op) = live.get(&e.a).and_then(|id| ops.get_mut(id)) else {
@@ -194,6 +195,13 @@ pub fn check_log(events: &[Event], type_names: &[&'static str], expect_all_freed
                 if let Some(op) = ops.get_mut(&e.a) {
                     op.freed += 1;
                     op.free_seq = e.seq;
+                    if e.tid != op.new_tid {
+                        // keys are not thread-safe (unsync reference counts, thread-bound
+                        // descriptors inside): releasing one on another thread races with
+                        // whatever the owner thread still shares with it
+                        finding!("released-on-foreign-thread", "pool-job".to_string(), e.seq,
+                            "operation {} ({}) was created on thread {} but its storage (and what it holds: buffer, descriptor handle) was released on thread {}", op.op_id, op.ty, op.new_tid, e.tid);
+                    }
                     if op.freed > 1 {
                         finding!("freed-twice", op.ty.clone(), e.seq, "operation {} released {} times", op.op_id, op.freed);
                     }
